@@ -56,6 +56,8 @@ class DocBuilder:
             p["required"] = True
         cont = CONTAINER[location]
         choices = ["example", "examples", "examples-ref", "schema-example", "schema-examples", "anyOf", "oneOf", "allOf"]
+        if kind == "str" and location == "query":
+            choices.append("examples-ref-bare")
         if self.allow_deep:
             choices += ["deep-anyOf-oneOf", "deep-anyOf-allOf"]
         placements = rng.sample(choices, min(n_placements, len(choices)))
@@ -81,6 +83,16 @@ class DocBuilder:
                 self.components["examples"][key] = {"value": v}
                 p.setdefault("examples", {})["r"] = {"$ref": f"#/components/examples/{key}"}
                 self.want(op, "param", cont, name, [], v, "param.examples.$ref")
+            elif pl == "examples-ref-bare":
+                # a reference to a bare value (not an Example Object): used as the example itself
+                v = new()
+                word = kind != "int" and rng.random() < 0.5
+                if word:
+                    v = f"{v} value"     # a string that merely contains the word
+                key = f"Ex{len(self.components['examples'])}"
+                self.components["examples"][key] = v
+                p.setdefault("examples", {})["bare"] = {"$ref": f"#/components/examples/{key}"}
+                self.want(op, "param", cont, name, [], v, "param.examples.$ref-bare" + ("+word-value" if word else ""))
             elif pl == "schema-example":
                 v = new()
                 schema["example"] = v
@@ -240,6 +252,14 @@ class DocBuilder:
                 self.components["examples"][key] = v
                 media["examples"]["bare"] = {"$ref": f"#/components/examples/{key}"}
                 self.want(op, "body", None, mt, [], v, "media.examples.$ref-bare")
+            if rng.random() < 0.2:
+                # a bare list / string behind the reference; "value" as an element or a substring is still no key
+                word = rng.random() < 0.5
+                v = [new(), "value" if word else "other"] if rng.random() < 0.5 else f"{new()}{' value' if word else ''}"
+                key = f"Ex{len(self.components['examples'])}"
+                self.components["examples"][key] = v
+                media["examples"]["bare2"] = {"$ref": f"#/components/examples/{key}"}
+                self.want(op, "body", None, mt, [], v, "media.examples.$ref-bare" + ("+word-value" if word else ""))
         if rng.random() < 0.3:
             v = obj()
             schema["example"] = v
